@@ -4,7 +4,8 @@ from vlib import core
 from props import c07_oracle as O
 
 PID = "C07"
-ENTRIES = {"c07_parse": ("Arith.Entry", "entry_c07_parse"), "c07_eval": ("Arith.Entry", "entry_c07_eval")}
+ENTRIES = {"c07_parse": ("Arith.Entry", "entry_c07_parse"), "c07_eval": ("Arith.Entry", "entry_c07_eval"),
+           "c07_roundtrip": ("Arith.Entry", "entry_c07_roundtrip")}
 TRUSTED = [
     "modelled, not verified: brush-parser/src/arithmetic.rs (grammar; the precedence!{} block and the lexical "
     "classes are regenerated into gen/C07ArithTable.v, the algorithm rust-peg 0.8.6 generates for precedence!{} is "
@@ -154,6 +155,8 @@ def canon(e):
     UNN = {"!": "LogicalNot", "~": "BitwiseNot", "+": "UnaryPlus", "-": "UnaryMinus"}
     IN = {"pre++": "PrefixIncrement", "pre--": "PrefixDecrement", "post++": "PostfixIncrement", "post--": "PostfixDecrement"}
     k = e[0]
+    if k == "raw":
+        return e[1]
     if k == "lit":
         return "(lit %d)" % O.strlong(e[1])
     if k == "ref":
@@ -170,6 +173,18 @@ def canon(e):
         return "(assign (var %s) %s)" % (e[1], canon(e[2]))
     if k == "opassign":
         return "(binassign %s (var %s) %s)" % (BN[e[1][:-1]], e[2], canon(e[3]))
+
+
+def canon_oracle(e):
+    """s-expression of an oracle (c07_oracle.Parser) tree"""
+    k = e[0]
+    if k == "lit":
+        return "(lit %d)" % e[1]
+    if k == "opassign":
+        return canon(("opassign", e[1] + "=", e[2], ("raw", canon_oracle(e[3]))))
+    if k in ("ref", "incr"):
+        return canon(e)
+    return canon(tuple(("raw", canon_oracle(x)) if isinstance(x, tuple) else x for x in e))
 
 
 def n_ops(e):
@@ -253,6 +268,23 @@ def parse_cases(ctx):
             cases.append((s, canon(e), "rendered"))
         except O.ArithError:
             cases.append((s, None, "rendered-badlit"))
+    # small scope, exhaustive: every pair of binary operators, every unary/assignment under/over every binary
+    for o1 in BIN:
+        for o2 in BIN:
+            for sp in ("%s%s%s%s%s", "%s %s %s %s %s"):
+                cases.append((sp % ("a", o1, "b", o2, "c"), None, "pairs"))
+        for u in UN + ["++", "--"]:
+            cases.append(("%s a %s b" % (u, o1), None, "pairs"))
+            cases.append(("a %s %s b" % (o1, u), None, "pairs"))
+        for u in ["++", "--"]:
+            cases.append(("a%s %s b" % (u, o1), None, "pairs"))
+            cases.append(("a %s b%s" % (o1, u), None, "pairs"))
+        for asg in ASSIGN:
+            cases.append(("a %s b %s c" % (asg, o1), None, "pairs"))
+            cases.append(("a %s (b %s c)" % (o1, asg), None, "pairs"))
+        cases.append(("a %s b ? c : d" % o1, None, "pairs"))
+        cases.append(("a ? b %s c : d" % o1, None, "pairs"))
+        cases.append(("a ? b : c %s d" % o1, None, "pairs"))
     for lit_ in LITS_OK + LITS_KF + LITS_BAD:
         cases.append((lit_, None, "literal"))
         cases.append(("-" + lit_ + "+x", None, "literal"))
@@ -309,6 +341,18 @@ def eval_cases(ctx):
     for a in bvals:
         for t in ["x++", "x--", "++x", "--x", "x++ + x", "x + x++", "x++ + ++x", "x-- - --x"]:
             cases.append(("0", t, {"x": a}, "boundary-incr"))
+    # small scope, exhaustive: every pair of binary operators on small operands (precedence, associativity)
+    for o1 in BIN:
+        for o2 in BIN:
+            cases.append(("0", "7 %s 3 %s 2" % (o1, o2), {}, "pairs"))
+            cases.append(("0", "x%s y %s z" % (o1, o2), {"x": "-9", "y": "4", "z": "3"}, "pairs"))
+        for u in UN:
+            cases.append(("0", "%s 2 %s 3" % (u, o1), {}, "pairs"))
+            cases.append(("0", "5 %s %s 2" % (o1, u), {}, "pairs"))
+        for asg in ASSIGN:
+            cases.append(("0", "x %s 6 %s 2" % (asg, o1), {"x": "13"}, "pairs"))
+        cases.append(("0", "1 %s 2 ? 3 : 4" % o1, {}, "pairs"))
+        cases.append(("0", "0 ? 3 : 4 %s 2" % o1, {}, "pairs"))
     # short circuit / conditional with effects in the skipped operand
     for eff in ["x++", "x = 9", "x += 2", "1 / 0", "y = 1 / 0", "2 ** -1", "z"]:
         for c in ["0", "1", "5", "w"]:
@@ -452,6 +496,38 @@ def compare_spec(c, code_fields):
     return why, None
 
 
+def oracle_parse_fields(s, flags=frozenset()):
+    try:
+        return ["ok", canon_oracle(O.Parser(s, flags).parse())]
+    except O.ArithError as ex:
+        return None if ex.kind == "unsupported" else ["err"]
+    except RecursionError:
+        return None
+
+
+def parse_spec(s, exp, cf):
+    """the parser against bash's grammar (oracle) on any string: same tree, or both reject;
+    -> None | (why, known id or None)"""
+    want = oracle_parse_fields(s)
+    if want is None:
+        return None
+    if exp is not None and want != ["ok", exp]:
+        raise core.CheckBroken("oracle parser and renderer disagree on %r: %r vs %r" % (s, want, exp))
+    if want == cf:
+        return None
+    why = "bash's grammar gives %s, the parser gave %s" % (want, cf)
+    for kid, flag in KF_FLAGS:
+        w2 = oracle_parse_fields(s, frozenset([flag]))
+        if w2 is not None and w2 != want and w2 == cf:
+            return why, kid
+    w2 = oracle_parse_fields(s, frozenset(f for _, f in KF_FLAGS))
+    if w2 == cf:
+        for kid, flag in KF_FLAGS:
+            if oracle_parse_fields(s, frozenset([flag])) != want:
+                return why, kid
+    return why, None
+
+
 # ------------------------------------------------------------------ bash as second opinion
 def bash_eval(cases, timeout=900):
     """runs every case in /usr/bin/bash; -> per case the text block it printed"""
@@ -514,15 +590,20 @@ def run(ctx):
         if cl.startswith("PANIC") or cl in ("DIED", "TIMEOUT"):
             specv.append({"input": {"parse": s}, "why": "the parser crashed: %s" % cl[:200]})
         # the property at the parser: a rendered well-formed expression parses to the tree it was rendered from
-        if exp is not None:
-            if cf == ["ok", exp]:
-                dist["render_roundtrip_ok"] += 1
-            else:
-                known = "KF-C07-literal-range" if any(O.out_of_brush_range(t) for t in lit_tokens(s)) and cf == ["err"] else None
-                v = {"input": {"parse": s}, "why": "rendered from %s but parsed as %s" % (exp, cf)}
-                if known:
-                    v["known"] = known
+        if exp is not None and cf == ["ok", exp]:
+            dist["render_roundtrip_ok"] += 1
+        if cf and cf[0] in ("ok", "err"):
+            r = parse_spec(s, exp, cf)
+            if r:
+                v = {"input": {"parse": s}, "why": r[0]}
+                if r[1]:
+                    v["known"] = r[1]
                 specv.append(v)
+    specv = arbitrate_parse(ctx, specv, notes)
+    # ---- (1b) the character-level round-trip statement, evaluated by the model on the rendered trees, and the
+    #           model's own rendering (bash table, minimal parentheses, one blank) through the real parser
+    rt = roundtrip_stream(ctx, pcases, pcode, mism, specv)
+    dist["roundtrip"] = rt
     # ---- (2) evaluator tie and (3) the property against the oracle
     ecases = eval_cases(ctx)
     ein = [enc_eval(c) for c in ecases]
@@ -597,6 +678,66 @@ def bash_fields(cases):
         head = ["ok", m.group(1)] if m and m.group(1) != "ERR" else ["err"]
         out.append((head, mv.group(1) if mv else None))
     return out
+
+
+def arbitrate_parse(ctx, specv, notes):
+    """a parse tree that differs from bash's grammar is a violation only if bash also evaluates the string
+    differently from the code (in some environment); otherwise it is logged"""
+    cand = [v for v in specv if "parse" in v["input"] and "known" not in v and "crashed" not in v["why"]]
+    if not cand:
+        return specv
+    envs = [{}, {n: str(p) for n, p in zip(NAMES, [3, 5, 7, 11, 13, 17, 19, 23])},
+            {n: str(p) for n, p in zip(NAMES, [-2, 0, 1, 64, -1, 9223372036854775807, 2, -9223372036854775808])}]
+    cases = [("0", v["input"]["parse"], dict(e), "arb") for v in cand for e in envs]
+    code = ctx.impl("arith_eval", [enc_eval(c) for c in cases])
+    bf = bash_fields(cases)
+    keep = [v for v in specv if v not in cand]
+    for i, v in enumerate(cand):
+        confirmed = None
+        for j in range(len(envs)):
+            k = i * len(envs) + j
+            cl = code[k]
+            if cl.startswith(("PANIC", "DIED", "TIMEOUT")):
+                confirmed = (cases[k], cl, bf[k])
+                break
+            cf = core.dec_line(cl)
+            if not same_as_bash(cf, bf[k]):
+                confirmed = (cases[k], cf, bf[k])
+                break
+        if confirmed:
+            v["evaluated"] = {"env": confirmed[0][2], "code": confirmed[1], "bash": confirmed[2]}
+            keep.append(v)
+        else:
+            notes.append("parse tree differs from bash's grammar but bash evaluates it like the code: %r (%s)" % (v["input"]["parse"], v["why"][:200]))
+    return keep
+
+
+def roundtrip_stream(ctx, pcases, pcode, mism, specv):
+    idx = [i for i, c in enumerate(pcases) if c[2] in ("rendered", "pairs")]
+    if ctx.quick:
+        idx = idx[:1500]
+    out = ctx.model("c07_roundtrip", [[pcases[i][0]] for i in idx])
+    st = {"cases": len(idx), "model_roundtrip_true": 0, "skipped": 0, "code_parses_rendering_to_same_tree": 0}
+    again, meta = [], []
+    for i, ml in zip(idx, out):
+        f = core.dec_line(ml)
+        if not f or f[0] != "ok":
+            st["skipped"] += 1
+            continue
+        if f[1] != "1":
+            mism.append({"what": "roundtrip statement false in the model", "input": pcases[i][0], "model": f})
+            continue
+        st["model_roundtrip_true"] += 1
+        again.append([f[2]])
+        meta.append(i)
+    code2 = ctx.impl("arith_parse", again)
+    for i, a, cl in zip(meta, again, code2):
+        if cl == pcode[i]:
+            st["code_parses_rendering_to_same_tree"] += 1
+        else:
+            specv.append({"input": {"parse": a[0]}, "why": "the bash-table rendering of the tree of %r parses to another tree: %s vs %s"
+                          % (pcases[i][0], core.dec_line(cl), core.dec_line(pcode[i]))})
+    return st
 
 
 def obs_join(fields):
